@@ -15,6 +15,7 @@ import (
 	"strings"
 	"sync"
 	"syscall"
+	"time"
 
 	"github.com/boyter/gocodewalker"
 	"go.uber.org/zap"
@@ -78,6 +79,11 @@ type FaultPlan struct {
 	Rate func(op, path, kind string) int
 	// Touched is called for every injected fault (op, path, kind).
 	Touched func(op, path, kind string)
+	// SlowCopy: a slow disk - every copy into a file below SlowUnder takes that long on the
+	// fake clock (between the moment the destination exists and the moment its bytes do), so
+	// that a process can end while a copy is in flight.
+	SlowCopy  time.Duration
+	SlowUnder string
 }
 
 // Plan is the installed fault plan.
@@ -583,6 +589,16 @@ func Copy(dst io.Writer, src io.Reader, site string) (int64, error) {
 				errno = syscall.ENOSPC
 			}
 			return int64(len(data) / 2), &os.PathError{Op: "copy", Path: name, Err: errno}
+		}
+	}
+	if pl := Plan; pl != nil && pl.SlowCopy > 0 && s != nil && strings.HasPrefix(name, pl.SlowUnder) {
+		if _, ok := dst.(*os.File); ok {
+			simrt.Fault("slow-io")
+			d := pl.SlowCopy
+			simrt.Block0(func() { time.Sleep(d) }, site)
+			if p != nil && p.Dead() {
+				return 0, &os.PathError{Op: "copy", Path: name, Err: ErrDead}
+			}
 		}
 	}
 	n, err := io.Copy(dst, src)
